@@ -427,6 +427,7 @@ def main(argv):
             "are 0, so the count is unchanged while the borrow is in use; (R-FWD) each of the seven count accessors returns, by pure forwarding, "
             "the value loaded from the count field of the block its receiver points to. Concurrent readings are inherently racy and not constrained by the property."
             ' Premises added later: the ArcUnion dispatch rules (R-TAG, Clone/Drop R-ARMS); signature class RAW-COUNT for `unsafe fn(*const T)` that move the count by one unit on behalf of the caller; compare-and-swap between constants as an increment.'
+            ' R-REFCNT-PAIR for every RefCnt impl.'
         ),
         rule_text="instances = (rule, API body) or (R-CBZERO, callback call site); non-trivial when a path carries at least one count/ownership event or the class demands one",
         trusted_base=["rustc nightly MIR construction, drop elaboration and trait resolution", "std model table analysis/model.py", "API class table in analysis/props/c04.py (one row per API named by the properties)"],
